@@ -43,13 +43,13 @@ Proof.
 Qed.
 
 (* ------------------------------------------------------------------------------------------ the frame *)
-Lemma frame_ok_lookup : forall allowed bind pre post,
-  frame_ok allowed bind pre post = true ->
+Lemma frame_ok_lookup : forall allowed soft bind pre post,
+  frame_ok allowed soft bind pre post = true ->
   forall n e, lookup n pre = Some e -> may_change allowed e = false ->
   exists e', lookup n post = Some e' /\ ename e' = ename e /\ eoid e' = eoid e /\ esnap e' = esnap e
              /\ memo_mono (ememo e) (ememo e') = true.
 Proof.
-  intros allowed bind pre. induction pre as [|e0 pre' IH]; intros post Hf n e Hl Hm.
+  intros allowed soft bind pre. induction pre as [|e0 pre' IH]; intros post Hf n e Hl Hm.
   - discriminate Hl.
   - destruct post as [|e0' post']; [discriminate Hf|].
     cbn [frame_ok] in Hf.
@@ -59,14 +59,14 @@ Proof.
     apply String.eqb_eq in Hname. apply Z.eqb_eq in Hoid.
     cbn [lookup] in Hl |- *. rewrite <- Hname.
     destruct (String.eqb n (ename e0)) eqn:En.
-    + injection Hl as <-. exists e0'. rewrite Hm in Hkept. cbn [orb] in Hkept.
+    + injection Hl as <-. exists e0'. rewrite Hm in Hkept.
       unfold entry_kept in Hkept. apply andb_true_iff in Hkept. destruct Hkept as [Hs Hmm].
       apply snap_eqb_true in Hs. repeat split; auto.
     + apply (IH post' Hrest n e Hl Hm).
 Qed.
 
 Lemma frame_ok_none_cores : forall bind pre post,
-  frame_ok None bind pre post = true ->
+  frame_ok None false bind pre post = true ->
   exists extra, cores post = cores pre ++ cores extra /\ (List.length extra <= 1)%nat.
 Proof.
   intros bind pre. induction pre as [|e0 pre' IH]; intros post Hf.
@@ -80,7 +80,7 @@ Proof.
     apply andb_true_iff in Hf. destruct Hf as [Hf Hkept].
     apply andb_true_iff in Hf. destruct Hf as [Hname Hoid].
     apply String.eqb_eq in Hname. apply Z.eqb_eq in Hoid.
-    cbn [may_change orb] in Hkept. unfold entry_kept in Hkept.
+    cbn [may_change] in Hkept. unfold entry_kept in Hkept.
     apply andb_true_iff in Hkept. destruct Hkept as [Hs _]. apply snap_eqb_true in Hs.
     destruct (IH post' Hrest) as [extra [Hc Hl]].
     exists extra. split; [|exact Hl].
@@ -105,7 +105,7 @@ Qed.
 Definition pure_step (st : step) : Prop := classify (cop (scall st)) = Some Pure.
 
 Lemma step_ok_pure_frame : forall pre st, step_ok pre st = true -> pure_step st ->
-  frame_ok None (cbind (scall st)) pre (spost st) = true /\ forallb (arg_ok pre) (cargs (scall st)) = true.
+  frame_ok None false (cbind (scall st)) pre (spost st) = true /\ forallb (arg_ok pre) (cargs (scall st)) = true.
 Proof.
   intros pre st H Hp. unfold step_ok in H. unfold pure_step in Hp. rewrite Hp in H.
   apply andb_true_iff in H. destruct H as [H Hf].
@@ -150,30 +150,55 @@ Proof.
   intros pre st H n e Hl Hne. unfold step_ok in H.
   destruct (classify (cop (scall st))) as [k|] eqn:Ek; [|discriminate H].
   apply andb_true_iff in H. destruct H as [_ Hf].
-  assert (Hgo : forall allowed, frame_ok allowed (cbind (scall st)) pre (spost st) = true ->
+  assert (Hgo : forall allowed soft, frame_ok allowed soft (cbind (scall st)) pre (spost st) = true ->
                 may_change allowed e = false ->
                 exists e', lookup n (spost st) = Some e' /\ eoid e' = eoid e /\ esnap e' = esnap e).
-  { intros allowed Hfr Hm. destruct (frame_ok_lookup _ _ _ _ Hfr n e Hl Hm) as [e' [H1 [_ [H3 [H4 _]]]]].
+  { intros allowed soft Hfr Hm. destruct (frame_ok_lookup _ _ _ _ _ Hfr n e Hl Hm) as [e' [H1 [_ [H3 [H4 _]]]]].
     exists e'. auto. }
   destruct k as [|i|i].
-  - apply (Hgo None Hf). reflexivity.
+  - apply (Hgo None false Hf). reflexivity.
   - destruct (recv_oid pre (cargs (scall st)) i) as [o|] eqn:Eo; [|discriminate Hf].
-    apply (Hgo (Some o) Hf). cbn [may_change]. apply Z.eqb_neq. intros ->.
+    apply (Hgo (Some o) false Hf). cbn [may_change]. apply Z.eqb_neq. intros ->.
     apply (Hne i); [left; exact Ek|exact Eo].
   - destruct (recv_oid pre (cargs (scall st)) i) as [o|] eqn:Eo; [|discriminate Hf].
-    apply (Hgo _ Hf). destruct (sraised st); [reflexivity|].
+    apply (Hgo (Some o) _ Hf).
     cbn [may_change]. apply Z.eqb_neq. intros ->.
     apply (Hne i); [right; exact Ek|exact Eo].
 Qed.
 
+Lemma frame_ok_soft_vcores : forall allowed bind pre post,
+  frame_ok allowed true bind pre post = true ->
+  exists extra, vcores post = vcores pre ++ vcores extra /\ (List.length extra <= 1)%nat.
+Proof.
+  intros allowed bind pre. induction pre as [|e0 pre' IH]; intros post Hf.
+  - destruct post as [|e1 [|e2 post'']].
+    + exists []. split; [reflexivity|simpl; lia].
+    + exists [e1]. split; [reflexivity|simpl; lia].
+    + discriminate Hf.
+  - destruct post as [|e0' post']; [discriminate Hf|].
+    cbn [frame_ok] in Hf.
+    apply andb_true_iff in Hf. destruct Hf as [Hf Hrest].
+    apply andb_true_iff in Hf. destruct Hf as [Hf Hkept].
+    apply andb_true_iff in Hf. destruct Hf as [Hname Hoid].
+    apply String.eqb_eq in Hname. apply Z.eqb_eq in Hoid.
+    assert (Hs : strip (esnap e0) = strip (esnap e0')).
+    { destruct (may_change allowed e0).
+      - cbn [negb orb] in Hkept. unfold value_kept in Hkept. apply snap_eqb_true in Hkept. exact Hkept.
+      - unfold entry_kept in Hkept. apply andb_true_iff in Hkept. destruct Hkept as [Hk _].
+        apply snap_eqb_true in Hk. rewrite Hk. reflexivity. }
+    destruct (IH post' Hrest) as [extra [Hc Hl]].
+    exists extra. split; [|exact Hl].
+    unfold vcores in *. cbn [map app]. rewrite Hc. unfold vcore. rewrite Hname, Hoid, Hs. reflexivity.
+Qed.
+
 Lemma atomic_raise_lemma : forall pre st i, step_ok pre st = true ->
   classify (cop (scall st)) = Some (MutatorAtomic i) -> sraised st = true ->
-  exists extra, cores (spost st) = cores pre ++ cores extra.
+  exists extra, vcores (spost st) = vcores pre ++ vcores extra.
 Proof.
   intros pre st i H Ek Hr. unfold step_ok in H. rewrite Ek in H.
   apply andb_true_iff in H. destruct H as [_ Hf].
   destruct (recv_oid pre (cargs (scall st)) i) as [o|]; [|discriminate Hf].
-  rewrite Hr in Hf. destruct (frame_ok_none_cores _ _ _ Hf) as [extra [Hc _]]. exists extra. exact Hc.
+  rewrite Hr in Hf. destruct (frame_ok_soft_vcores _ _ _ _ Hf) as [extra [Hc _]]. exists extra. exact Hc.
 Qed.
 
 (* ------------------------------------------------------------------------------------------ T4 *)
